@@ -714,3 +714,76 @@ def prov_sampler_setup(repo, tier="quick"):
      obs.append(ob_fail(oid, ini, wheref.ast if wheref else None, construct="fragment_reactivities stored without order-suffix defaulting", instance="defaults:fragment_reactivities",
                         reason="conditional reactivities written without order suffix are silently ignored")))
     return obs
+
+
+def tt_order_defaults(repo, tier="quick"):
+    """C17 (order-suffix defaults on all tables): `_set_bond_order_defaults` and the key patching of the conditional table,
+    executed in the abstract evaluator on representative descriptors: a descriptor written without order digit gets the
+    suffix 1, one written with a digit is left alone, values are kept, for dict and list input."""
+    from ..absint import Raised
+    from .truth import helper_inliner
+    obs = []
+    oid = "TT.order-defaults"
+    fi = repo.function("sample:_set_bond_order_defaults")
+    p0 = fi.positional_params[0]
+    bare = ["$", "$A", ">b", "<", "!x"]
+    done = ["$2", "$A2", ">b3", "<1", "!x1"]
+    cases = [("dict", {k: i + 0.5 for i, k in enumerate(bare + done)}, {**{k + "1": i + 0.5 for i, k in enumerate(bare)}, **{k: len(bare) + i + 0.5 for i, k in enumerate(done)}}),
+             ("list", list(bare + done), [k + "1" for k in bare] + done),
+             ("empty dict", {}, {}), ("empty list", [], [])]
+    bad = []
+    for label, arg, want in cases:
+        ev = Evaluator(call_hook=helper_inliner(fi))
+        try:
+            res = ev.run_function(fi.node, {p0: (dict(arg) if isinstance(arg, dict) else list(arg))})
+        except Unsupported as err:
+            raise AnalysisError("_set_bond_order_defaults outside the evaluator's language: %s" % err, fi.where())
+        got = res[1] if res[0] == "return" else "raises " + str(res[1])
+        if isinstance(got, dict):
+            got = {(k.concrete() if isinstance(k, AStr) else k): v for k, v in got.items()}
+        if isinstance(got, list):
+            got = [(k.concrete() if isinstance(k, AStr) else k) for k in got]
+        if got != want:
+            bad.append((label, got, want))
+    if bad:
+        for label, got, want in bad[:3]:
+            obs.append(ob_fail(oid, fi, construct="%s input -> %s" % (label, str(got)[:100]), instance="defaults:" + label.split()[0],
+                               reason="expected %s: a table keyed by descriptors with the wrong suffix never matches the descriptors of the molecule" % str(want)[:120]))
+    else:
+        obs.append(ob_ok(oid, fi, construct="_set_bond_order_defaults on %d representative descriptors, dict and list" % len(bare + done), instance="defaults",
+                         reason="descriptors without an order digit get the suffix 1, the others are unchanged, values and order are kept"))
+    # the conditional table: keys patched the same way, values through the function above
+    ini = repo.function("sample:MoleculeSampler.__init__")
+    loop = None
+    for n in ini.cfg.nodes:
+        if n.kind == "for":
+            it = strip_wrappers(ini.flow.canon(n.ast.iter, n.id))
+            m = method_call(it, "items")
+            if m and m[0] == ("param", "fragment_reactivities"):
+                loop = n
+    if loop is None:
+        obs.append(ob_undecided(oid, ini, construct="loop over fragment_reactivities.items()", instance="conditional-keys", reason="loop not found"))
+        return obs
+    table = {}
+
+    def store(ev, target, value, env):
+        if isinstance(target, ast.Subscript) and ast.unparse(target.value) == "self.fragment_reactivities":
+            k = ev.eval(target.slice, env)
+            table[k.concrete() if isinstance(k, AStr) else k] = value
+            return True
+        return False
+    ev = Evaluator(call_hook=helper_inliner(ini), store_hook=store)
+    arg = {"$A": {"$B": 1.0}, ">x2": {"<x2": 0.5, "<y": 0.5}, "<": {}}
+    want = {"$A1": {"$B1": 1.0}, ">x2": {"<x2": 0.5, "<y1": 0.5}, "<1": {}}
+    try:
+        ev.block([loop.ast], {"fragment_reactivities": arg})
+        got = {k: ({(kk.concrete() if isinstance(kk, AStr) else kk): vv for kk, vv in v.items()} if isinstance(v, dict) else v) for k, v in table.items()}
+    except Raised as r:
+        got = "raises " + r.exc_name
+    except Unsupported as err:
+        raise AnalysisError("conditional reactivity loop outside the evaluator's language: %s" % err, ini.where(loop.ast))
+    (obs.append(ob_ok(oid, ini, loop.ast, construct="fragment_reactivities: outer and inner keys get the suffix", instance="conditional-keys",
+                      reason="conditional reactivities are looked up under descriptors with order digits")) if got == want else
+     obs.append(ob_fail(oid, ini, loop.ast, construct="conditional table becomes %s" % str(got)[:120], instance="conditional-keys",
+                        reason="expected %s" % str(want)[:140])))
+    return obs
